@@ -300,6 +300,26 @@ inline std::string ReuseLocalNames(const std::string& s) {
   }
   return out;
 }
+// the same text with ONLY the index list of one projection / filter token changed to another plausible list (Pr1 -> Pr2, Pr1 -> Pr1,2 ...):
+// an edit that differs from the stored definition in nothing but the payload of one token
+inline bool HasIndexToken(const std::string& s) { for (size_t i = 0; i + 2 < s.size(); ++i) if ((s.compare(i, 2, "pr") == 0 || s.compare(i, 2, "Pr") == 0 || s.compare(i, 2, "Fi") == 0) && s[i + 2] >= '0' && s[i + 2] <= '9') return true; return false; }
+inline std::string IndexEdit(Rng& r, const std::string& s) {
+  std::vector<size_t> at;
+  for (size_t i = 0; i + 2 < s.size(); ++i) if ((s.compare(i, 2, "pr") == 0 || s.compare(i, 2, "Pr") == 0 || s.compare(i, 2, "Fi") == 0) && s[i + 2] >= '0' && s[i + 2] <= '9') at.push_back(i);
+  if (at.empty()) return s;
+  const size_t i = r.Pick(at); size_t j = i + 2; while (j < s.size() && ((s[j] >= '0' && s[j] <= '9') || s[j] == ',')) ++j;
+  const std::string old = s.substr(i + 2, j - i - 2);
+  static const std::vector<std::string> lists{ "1", "2", "3", "1,2", "2,1", "1,3", "1,2,3" };
+  std::string neu = r.Pick(lists); if (neu == old) neu = old + ",2";
+  if (r.Pct(40)) neu = old.find(',') == std::string::npos ? old + "," + std::to_string(r.Range(1, 3)) : old.substr(0, old.find(','));   // only longer / only shorter
+  return s.substr(0, i + 2) + neu + s.substr(j);
+}
+// a product regrouped: A×B×C <-> (A×B)×C (different typifications that print alike if brackets are lost)
+inline std::string Regroup(Rng& r, const std::string& s) {
+  const std::string x = "×"; const auto a = s.find(x); if (a == std::string::npos) return s; const auto b = s.find(x, a + x.size()); if (b == std::string::npos) return s;
+  size_t st = a; int depth = 0; while (st > 0) { const char ch = s[st - 1]; if (ch == ')' || ch == '}' || ch == ']') ++depth; else if (ch == '(' || ch == '{' || ch == '[') { if (depth == 0) break; --depth; } else if (depth == 0 && (ch == '|' || ch == ',' || ch == ' ' || ch == '=')) break; --st; }
+  (void)r; return s.substr(0, st) + "(" + s.substr(st, b - st) + ")" + s.substr(b);
+}
 inline std::string Mutate(Rng& r, const std::string& text, const Env& env) {
   auto cps = CodePoints(text);
   if (cps.empty()) return text;
